@@ -1,6 +1,6 @@
 (* C18 property theorems: statements only, each closed by `exact`, pinned by `Check`, assumptions printed. *)
 From Coq Require Import NArith ZArith List Bool Arith.
-From C18 Require Import Json Proofs_Lex Proofs_Parse Proofs_Round Proofs_Obj Proofs_Inst Proofs_C18.
+From C18 Require Import Json Proofs_Lex Proofs_Parse Proofs_Round Proofs_Obj Proofs_Inst Proofs_WF Proofs_C18.
 Import ListNotations.
 Local Open Scope N_scope.
 
@@ -202,6 +202,60 @@ Check gap_at_most_10 :
   forall sp, (length (gap_of_space sp) <= 10)%nat.
 Print Assumptions gap_at_most_10.
 
+(* well-formed JSON.stringify, strings: whatever code units a string or key holds (lone surrogates, any N), its quoted form has no unpaired surrogate *)
+Theorem quote_well_formed :
+  forall s : list N, wf16 (quote_json_string s) = true.
+Proof. exact wf16_quote. Qed.
+Check quote_well_formed :
+  forall s : list N, wf16 (quote_json_string s) = true.
+Print Assumptions quote_well_formed.
+
+(* well-formed JSON.stringify, whole texts: any depth and width, any strings and keys, any gap that is itself well-formed *)
+Theorem stringify_well_formed :
+  forall (num : Type) (print_num : num -> list N) (ok : num -> bool),
+  (forall x, ok x = true -> wf16 (print_num x) = true) ->
+  forall gap (v : jvalue num), printable num ok v = true -> wf16 gap = true ->
+    wf16 (stringify num print_num gap v) = true.
+Proof. exact wf16_stringify. Qed.
+Check stringify_well_formed :
+  forall (num : Type) (print_num : num -> list N) (ok : num -> bool),
+  (forall x, ok x = true -> wf16 (print_num x) = true) ->
+  forall gap (v : jvalue num), printable num ok v = true -> wf16 gap = true ->
+    wf16 (stringify num print_num gap v) = true.
+Print Assumptions stringify_well_formed.
+
+(* the same for the JS value handed to JSON.stringify (undefined members dropped, holes and non-finite numbers as null) *)
+Theorem serialize_well_formed :
+  forall (num : Type) (print_num : num -> list N) (ok : num -> bool),
+  (forall x, ok x = true -> wf16 (print_num x) = true) ->
+  forall gap (x : jsv num) (j : jvalue num) t, to_json num x = Some j -> printable num ok j = true -> wf16 gap = true ->
+    serialize num print_num gap x = Some t -> wf16 t = true.
+Proof. exact wf16_serialize. Qed.
+Check serialize_well_formed :
+  forall (num : Type) (print_num : num -> list N) (ok : num -> bool),
+  (forall x, ok x = true -> wf16 (print_num x) = true) ->
+  forall gap (x : jsv num) (j : jvalue num) t, to_json num x = Some j -> printable num ok j = true -> wf16 gap = true ->
+    serialize num print_num gap x = Some t -> wf16 t = true.
+Print Assumptions serialize_well_formed.
+
+(* closed instance used by the correspondence: numbers are JSON number tokens (ASCII), no hypothesis left *)
+Theorem stringify_well_formed_tok :
+  forall gap (v : jvalue (list N)), printable (list N) number_token v = true -> wf16 gap = true ->
+    wf16 (stringify (list N) print_tok gap v) = true.
+Proof. exact wf16_stringify_tok. Qed.
+Check stringify_well_formed_tok :
+  forall gap (v : jvalue (list N)), printable (list N) number_token v = true -> wf16 gap = true ->
+    wf16 (stringify (list N) print_tok gap v) = true.
+Print Assumptions stringify_well_formed_tok.
+
+(* the gap made from a Number is well-formed; the one cut from a String need not be (ex_gap_splits_pair below) *)
+Theorem gap_number_well_formed :
+  forall z, wf16 (gap_of_space (SpNum z)) = true.
+Proof. exact wf16_gap_num. Qed.
+Check gap_number_well_formed :
+  forall z, wf16 (gap_of_space (SpNum z)) = true.
+Print Assumptions gap_number_well_formed.
+
 (* the hypotheses of the general theorems are satisfiable (both instances), and the definitions compute *)
 Example hyp_Z : (forall x : Z, (fun _ => true) x = true -> number_token (print_Z x) = true) /\
                 (forall x : Z, (fun _ => true) x = true -> parse_Z (print_Z x) = Some x).
@@ -231,3 +285,12 @@ Example ex_accept :
       [[49;101;52;48;48]; [45;48]; [34;92;117;100;56;48;48;34]; [34;55296;34]; [32;91;32;93;32]] =
   [Some (JNum [49;101;52;48;48]); Some (JNum [45;48]); Some (JStr [55296]); Some (JStr [55296]); Some (JArr [])].
 Proof. vm_compute. reflexivity. Qed.
+
+(* the hypothesis `wf16 gap` of stringify_well_formed is needed: a String `space` is cut after 10 code units, which can split a pair *)
+Example ex_gap_splits_pair :
+  wf16 (repeat 32 9 ++ [55357; 56832]) = true /\
+  wf16 (gap_of_space (SpStr (repeat 32 9 ++ [55357; 56832]))) = false.
+Proof. exact gap_can_split_pair. Qed.
+
+Example hyp_wf_tok : forall t, number_token t = true -> wf16 (print_tok t) = true.
+Proof. exact number_token_wf16. Qed.
